@@ -66,6 +66,14 @@ SINGLE_OPS = {"add", "remove", "removeKey", "discard", "pop", "popAt", "insert",
 
 def _exc(e: Exception) -> List[Any]:
     from basyx.aas.model import AASConstraintViolation
+    # Referable.__repr__ is called only while an error message is being formatted at a raise point.  On the pinned tree it
+    # raises TypeError itself when an ancestor has no idShort; the call then still raises at the same point (state effects are
+    # identical), only the exception type is replaced.  Reported as a wildcard that matches any exception of the model.
+    tb = e.__traceback__
+    while tb is not None and tb.tb_next is not None:
+        tb = tb.tb_next
+    if tb is not None and tb.tb_frame.f_code.co_name == "__repr__" and isinstance(e, TypeError):
+        return ["raise", "*repr*"]
     if isinstance(e, AASConstraintViolation):
         return ["raise", "AASCV", e.constraint_id]
     return ["raise", type(e).__name__]
@@ -307,7 +315,7 @@ class World:
                         continue
                     try:
                         row.append(self.hobj(getattr(ns, getter)(k)))
-                    except KeyError:
+                    except Exception:     # not found (KeyError; or TypeError out of the message's __repr__, see _exc)
                         row.append(None)
                 nl.append(row)
             nv.append([n, sv, nl])
@@ -327,87 +335,40 @@ BAD_QT = ["", "q" * 129]
 SEMS = [None, None, 1, 2]
 
 
-def gen_history(rng: random.Random, length: int) -> List[List[Any]]:
-    """A seeded history: a pool of elements (colliding / case-differing / None keys), 2-4 namespaces of random kinds, then ops."""
-    ops: List[List[Any]] = []
-    ekind: List[str] = []
-    ecls: List[int] = []
-    nskind: List[str] = []
-    alive_ns: List[int] = []
-
-    def mk(kind, key=None, sem="rand", cls=None, vt=None):
-        if sem == "rand":
-            sem = rng.choice(SEMS)
-        if kind == "ref":
-            cls = rng.choice([0, 0, 0, 1, 2]) if cls is None else cls
-            vt = rng.choice([0, 0, 1]) if vt is None else vt
-        else:
-            cls, vt = 0, 0
-        ops.append(["mk", kind, key, sem, cls, vt])
-        ekind.append(kind)
-        ecls.append(cls)
-        return len(ekind) - 1
-
-    n_ref = rng.randint(4, 9)
-    for _ in range(n_ref):
-        mk("ref", rng.choice(ID_POOL + [None, None, None]))
-    for _ in range(rng.randint(1, 4)):
-        mk("qual", rng.choice(QT_POOL))
-    for _ in range(rng.randint(1, 3)):
-        mk("ext", rng.choice(QT_POOL))
-
-    def elems_of(kind):
-        return [i for i, k in enumerate(ekind) if k == kind]
-
-    def pick(kind, k=1):
-        pool = elems_of(kind)
-        return [rng.choice(pool) for _ in range(k)] if pool else []
-
-    def new_ns(kind=None):
-        kind = kind or rng.choice(["submodel", "smc", "sml", "sml", "sml", "entity", "arel", "op", "op", "holder", "aas", "cd"])
-        items = []
-        for a in NS_SETS[kind]:
-            if rng.random() < 0.35:
-                items.append(pick(a, rng.randint(1, 3)))
-            else:
-                items.append([])
-        cfg = None
-        if kind == "sml":
-            cls = rng.choice([0, 0, 0, 1, 2])
-            cfg = [cls, rng.choice([None, None, 1]), rng.choice([0, 0, 1]) if cls <= 1 or rng.random() < .2 else None]
-            if rng.random() < 0.03:
-                cfg[2] = None
-        key = rng.choice(ID_POOL + [None, None]) if kind in SME_KINDS else None
-        ops.append(["ns", kind, key, items, cfg])
-        nskind.append(kind)
-        alive_ns.append(len(nskind) - 1)
-        if kind in SME_KINDS:   # may or may not become an element: the harness fixes handles up afterwards
-            ekind.append("ref?")
-            ecls.append(SME_KINDS[kind])
-        return len(nskind) - 1
-
-    for _ in range(rng.randint(2, 4)):
-        new_ns()
-    return ops, ekind, nskind
-
-
 class HistoryGen:
     """Generates ops one at a time against the evolving implementation world (so that handles are always valid and choices
-    can be biased towards members / non-members).  All randomness from `rng`."""
+    can be biased towards members / non-members / addable elements).  All randomness from `rng`."""
+
+    NS_KINDS = ["submodel", "smc", "sml", "sml", "sml", "entity", "arel", "op", "op", "holder", "aas", "cd"]
 
     def __init__(self, rng: random.Random):
         self.rng = rng
         self.w = World()
+        self.cfgs: Dict[int, List[Any]] = {}     # list namespace -> cfg
+        self.meta: List[Tuple[int, int]] = []    # per element (cls, vt)
 
     def elems(self, kind):
         return [h for h, k in enumerate(self.w.kinds) if k == kind]
 
+    def note(self, op, res):
+        """bookkeeping after the implementation executed `op`"""
+        if op[0] == "mk":
+            self.meta.append((op[4], op[5]))
+        elif op[0] == "ns":
+            if op[1] == "sml":
+                self.cfgs[len(self.w.nss) - 1] = op[4]
+            if res == ["ok"] and op[1] in SME_KINDS:
+                self.meta.append((SME_KINDS[op[1]], 0))
+
+    def mk_op(self, unnamed_bias=0.4) -> List[Any]:
+        rng = self.rng
+        cls = rng.choice([0, 0, 0, 0, 1, 2])
+        key = None if rng.random() < unnamed_bias else rng.choice(ID_POOL)
+        return ["mk", "ref", key, rng.choice(SEMS), cls, rng.choice([0, 0, 0, 1])]
+
     def setup(self) -> List[List[Any]]:
         rng = self.rng
-        ops = []
-        for _ in range(rng.randint(4, 9)):
-            cls = rng.choice([0, 0, 0, 1, 2])
-            ops.append(["mk", "ref", rng.choice(ID_POOL + [None, None, None, None]), rng.choice(SEMS), cls, rng.choice([0, 0, 1])])
+        ops = [self.mk_op() for _ in range(rng.randint(5, 10))]
         for _ in range(rng.randint(1, 4)):
             ops.append(["mk", "qual", rng.choice(QT_POOL), rng.choice(SEMS), 0, 0])
         for _ in range(rng.randint(1, 3)):
@@ -415,38 +376,73 @@ class HistoryGen:
         return ops
 
     def ns_op(self) -> List[Any]:
-        rng = self.rng
-        kind = rng.choice(["submodel", "smc", "sml", "sml", "sml", "entity", "arel", "op", "op", "holder", "aas", "cd"])
+        rng, w = self.rng, self.w
+        kind = rng.choice(self.NS_KINDS)
+        cfg = None
+        if kind == "sml":
+            cls = rng.choice([0, 0, 0, 0, 1, 2, 4])
+            cfg = [cls, rng.choice([None, None, None, 1]), rng.choice([0, 0, 0, 1]) if cls <= 1 else rng.choice([None, None, 0])]
+            if rng.random() < 0.03:
+                cfg[2] = None
         items = []
         for a in NS_SETS[kind]:
             pool = self.elems(a)
-            if pool and rng.random() < 0.35:
+            if pool and rng.random() < 0.4:
+                if rng.random() < 0.7:
+                    free = [h for h in pool if getattr(w.elems[h], "parent", None) is None and id(w.elems[h]) not in w.n_of]
+                    if kind == "sml" and a == "ref":
+                        free = [h for h in free if w.elems[h].id_short is None and self.meta[h][0] == cfg[0]]
+                    pool = free or pool
                 items.append([rng.choice(pool) for _ in range(rng.randint(1, 3))])
             else:
                 items.append([])
-        cfg = None
-        if kind == "sml":
-            cls = rng.choice([0, 0, 0, 1, 2, 4])
-            cfg = [cls, rng.choice([None, None, 1]), rng.choice([0, 0, 1]) if cls <= 1 else rng.choice([None, None, 0])]
-            if rng.random() < 0.03:
-                cfg[2] = None
-        key = rng.choice(ID_POOL + [None, None, None]) if kind in SME_KINDS else None
+        key = rng.choice(ID_POOL + ID_POOL + [None]) if kind in SME_KINDS else None
         return ["ns", kind, key, items, cfg]
 
     def live(self) -> List[int]:
         return [n for n, o in enumerate(self.w.nss) if o is not None]
 
     def next_op(self) -> List[Any]:
+        """next op; never builds a parent cycle (a namespace element inside itself or inside one of its descendants): the
+        SDK's __repr__ (used in its error messages) does not terminate on such a structure, and it is no namespace history."""
+        op = self._next_op()
+        k = op[0]
+        if k in ("add", "append", "nsAdd"):
+            op[-1] = self.safe(op[1], op[-1])
+        elif k in ("insert", "setItem"):
+            op[4] = self.safe(op[1], op[4])
+        elif k in ("setSlice", "extend", "setValue"):
+            op[-1] = [self.safe(op[1], e) for e in op[-1]]
+        return op
+
+    def safe(self, n: int, e: int) -> int:
+        w = self.w
+        el = w.elems[e]
+        if id(el) not in w.n_of:
+            return e
+        anc = w.nss[n]
+        seen = 0
+        while anc is not None and seen < 100:
+            if anc is el:
+                plain = [h for h, x in enumerate(w.elems) if w.kinds[h] == "ref" and id(x) not in w.n_of]
+                return self.rng.choice(plain) if plain else e
+            anc = getattr(anc, "parent", None)
+            seen += 1
+        return e
+
+    def _next_op(self) -> List[Any]:
         rng, w = self.rng, self.w
         live = self.live()
         r = rng.random()
         if not live or r < 0.03:
             return self.ns_op()
-        if r < 0.05:
-            cls = rng.choice([0, 0, 1, 2])
-            return ["mk", "ref", rng.choice(ID_POOL + [None, None]), rng.choice(SEMS), cls, rng.choice([0, 0, 1])]
+        if r < 0.07:
+            return self.mk_op(0.6)
         if r < 0.17:   # rename
             e = rng.randrange(len(w.elems))
+            if rng.random() < 0.5:   # prefer contained elements
+                cont = [h for h, el in enumerate(w.elems) if getattr(el, "parent", None) is not None]
+                e = rng.choice(cont) if cont else e
             kd = w.kinds[e]
             if kd == "ref":
                 key = rng.choice(ID_POOL * 3 + [None, None] + BAD_IDS)
@@ -454,17 +450,33 @@ class HistoryGen:
                 key = rng.choice(QT_POOL * 3 + BAD_QT)
             return ["rename", e, key]
         if r < 0.22:
-            return ["setSem", rng.randrange(len(w.elems)), rng.choice(SEMS + [3])]
+            e = rng.randrange(len(w.elems))
+            if rng.random() < 0.6:   # prefer list children
+                cont = [h for h, el in enumerate(w.elems) if id(getattr(el, "parent", None)) in w.n_of
+                        and w.nskinds[w.n_of[id(el.parent)]] == "sml"]
+                e = rng.choice(cont) if cont else e
+            return ["setSem", e, rng.choice(SEMS + [3])]
         n = rng.choice(live)
+        if rng.random() < 0.4:   # prefer lists: most of the machinery is there
+            ls = [m for m in live if w.nskinds[m] == "sml" and len(w.sets(m)) == 3]
+            n = rng.choice(ls) if ls else n
         sets = w.sets(n)
+        nskind = w.nskinds[n]
         if r < 0.27:
             e = rng.randrange(len(w.elems))
-            return ["nsAdd", n, e]
-        if r < 0.31:
+            meth = {"ref": "add_referable", "qual": "add_qualifier", "ext": "add_extension"}[w.kinds[e]]
+            if hasattr(w.nss[n], meth):
+                return ["nsAdd", n, e]
+        elif r < 0.31:
             kd = rng.choice(["ref", "ref", "qual", "ext"])
-            keys = [getattr(el, ATTR[w.kinds[h]]) for h, el in enumerate(w.elems) if w.kinds[h] == kd]
-            keys = [k for k in keys if k is not None] + (ID_POOL if kd == "ref" else QT_POOL)
-            return ["nsRemove", n, kd, rng.choice(keys)]
+            meth = {"ref": "remove_referable", "qual": "remove_qualifier_by_type", "ext": "remove_extension_by_name"}[kd]
+            if hasattr(w.nss[n], meth):
+                keys = [getattr(el, ATTR[w.kinds[h]]) for h, el in enumerate(w.elems)
+                        if w.kinds[h] == kd and (getattr(el, "parent", None) is w.nss[n] or rng.random() < 0.2)]
+                keys = [k for k in keys if k is not None] or (ID_POOL if kd == "ref" else QT_POOL)
+                return ["nsRemove", n, kd, rng.choice(keys)]
+        if not sets:
+            return self.ns_op()
         # set-level op; prefer the referable sets
         cand = list(range(len(sets)))
         refsets = [j for j in cand if sets[j].get_attribute_name_list()[0] == "id_short"]
@@ -474,41 +486,59 @@ class HistoryGen:
         ordered = hasattr(s, "__getitem__")
         members = [w.h_of[id(x)] for x in s if id(x) in w.h_of]
         pool = self.elems(kd)
+        cfg = self.cfgs.get(n)
 
-        def pick_elem(member_bias=0.3):
-            if members and rng.random() < member_bias:
-                return rng.choice(members)
-            if ordered and rng.random() < 0.6:   # list children must not have an idShort
-                free = [h for h in pool if getattr(w.elems[h], "id_short", 0) is None]
+        def pick_new():
+            """an element to insert: mostly one that the set will accept"""
+            q = rng.random()
+            if q < 0.7:
+                free = [h for h in pool if getattr(w.elems[h], "parent", None) is None]
+                if ordered and cfg is not None:
+                    free = [h for h in free if w.elems[h].id_short is None and self.meta[h][0] == cfg[0]
+                            and (cfg[0] > 1 or self.meta[h][1] == cfg[2] or rng.random() < 0.1)]
+                elif kd == "ref":
+                    free = [h for h in free if w.elems[h].id_short is not None or rng.random() < 0.1]
                 if free:
                     return rng.choice(free)
+            if q < 0.8 and members:
+                return rng.choice(members)
+            return rng.choice(pool) if pool else 0
+
+        def pick_member(bias):
+            if members and rng.random() < bias:
+                return rng.choice(members)
             return rng.choice(pool) if pool else 0
 
         def idx():
             ln = len(s)
-            return rng.choice([0, 0, 1, ln - 1, ln, ln + 1, -1, -ln, -ln - 1, rng.randint(-3, 5)])
+            return rng.choice([0, 0, 1, ln - 1, ln - 1, ln, ln + 1, -1, -ln, -ln - 1, rng.randint(-3, 5)])
 
         def sl():
             def b():
-                return rng.choice([None, None, 0, 1, 2, 3, -1, -2, 5, -7])
-            return [b(), b(), rng.choice([None, None, None, 1, 1, 2, -1, -2, 0])]
+                return rng.choice([None, None, 0, 1, 1, 2, 3, -1, -2, 5, -7])
+            return [b(), b(), rng.choice([None, None, None, None, 1, 1, 2, -1, -2, 0])]
 
         if ordered:
-            kinds = ["add", "append", "insert", "insert", "setItem", "setItem", "setSlice", "setSlice", "setSlice", "delItem",
-                     "delSlice", "popAt", "pop", "remove", "removeKey", "discard", "extend", "clear", "setValue"]
+            kinds = ["add", "add", "append", "append", "insert", "insert", "insert", "setItem", "setItem", "setSlice", "setSlice",
+                     "setSlice", "delItem", "delSlice", "popAt", "pop", "remove", "removeKey", "discard", "extend", "extend", "clear",
+                     "setValue"]
+            if len(s) < 2:
+                kinds += ["add", "append", "insert", "extend", "extend"]
         else:
-            kinds = ["add", "add", "add", "add", "remove", "remove", "discard", "discard", "removeKey", "pop", "clear"]
+            kinds = ["add", "add", "add", "add", "add", "remove", "remove", "discard", "discard", "removeKey", "pop", "clear"]
+            if len(s) < 2:
+                kinds += ["add", "add", "add"]
         k = rng.choice(kinds)
         if k == "add":
-            return ["add", n, j, pick_elem(0.15)]
+            return ["add", n, j, pick_new()]
         if k == "append":
-            return ["append", n, j, pick_elem(0.15)]
+            return ["append", n, j, pick_new()]
         if k == "insert":
-            return ["insert", n, j, idx(), pick_elem(0.15)]
+            return ["insert", n, j, idx(), pick_new()]
         if k == "setItem":
-            return ["setItem", n, j, idx(), pick_elem(0.2)]
+            return ["setItem", n, j, idx(), pick_new()]
         if k == "setSlice":
-            return ["setSlice", n, j, sl(), [pick_elem(0.1) for _ in range(rng.choice([0, 1, 1, 2, 2, 3]))]]
+            return ["setSlice", n, j, sl(), [pick_new() for _ in range(rng.choice([0, 1, 1, 2, 2, 3]))]]
         if k == "delItem":
             return ["delItem", n, j, idx()]
         if k == "delSlice":
@@ -518,20 +548,20 @@ class HistoryGen:
         if k == "pop":
             return ["pop", n, j]
         if k == "remove":
-            return ["remove", n, j, pick_elem(0.7)]
+            return ["remove", n, j, pick_member(0.75)]
         if k == "discard":
-            return ["discard", n, j, pick_elem(0.6)]
+            return ["discard", n, j, pick_member(0.6)]
         if k == "removeKey":
-            keys = [getattr(w.elems[h], ATTR[kd]) for h in members] if rng.random() < 0.7 else []
+            keys = [getattr(w.elems[h], ATTR[kd]) for h in members] if rng.random() < 0.75 else []
             keys = [x for x in keys if x is not None] or (ID_POOL if kd == "ref" else QT_POOL)
             return ["removeKey", n, j, rng.choice(keys)]
         if k == "extend":
-            return ["extend", n, j, [pick_elem(0.1) for _ in range(rng.choice([0, 1, 2, 3]))]]
+            return ["extend", n, j, [pick_new() for _ in range(rng.choice([0, 1, 2, 2, 3]))]]
         if k == "setValue":
-            if w.nskinds[n] != "sml" or not hasattr(w.nss[n], "_value"):
+            if nskind != "sml" or not hasattr(w.nss[n], "_value"):
                 return ["clear", n, j]
-            return ["setValue", n, [pick_elem(0.2) for _ in range(rng.choice([0, 1, 2, 3]))]]
-        return ["clear", n, j]
+            return ["setValue", n, [pick_new() for _ in range(rng.choice([0, 1, 2, 3]))]]
+        return ["clear", n, j] if rng.random() < 0.5 else ["pop", n, j]
 
 
 PROBES = ["abc", "ABC", "t", "zz"]
@@ -551,6 +581,7 @@ def run_history(rng: random.Random, length: int, on_step=None) -> Tuple[List[Lis
         hist.append(op)
         before = orc.snapshot() if op[0] in SINGLE_OPS else None
         r = g.w.step(op)
+        g.note(op, r)
         lines.append(op)
         outs.append(r)
         v = ["view", g.live(), PROBES]
@@ -659,9 +690,9 @@ class Oracle:
                         try:
                             if getattr(ns, getter)(key) is not c:
                                 return F("ns-lookup", f"namespace {n}: {getter}({self._k(key)!r}) returns another object than the child")
-                        except KeyError:
-                            return F("ns-lookup", f"namespace {n}: {getter}({self._k(key)!r}) raises KeyError for contained element "
-                                     f"{w.h_of[id(c)]}")
+                        except Exception as e:
+                            return F("ns-lookup", f"namespace {n}: {getter}({self._k(key)!r}) raises {type(e).__name__} for contained "
+                                     f"element {w.h_of[id(c)]}")
                 # lookups never return a non-member
                 for h, el in enumerate(w.elems):
                     key = getattr(el, ATTR[w.kinds[h]], None)
@@ -804,6 +835,8 @@ def correspond(ctx: C.Ctx, cov: C.Coverage) -> List[C.Disagreement]:
         return [C.Disagreement("driver output length", None, len(model), len(impl))]
     seen_h = set()
     for k, (m, i) in enumerate(zip(model, impl)):
+        if i == ["raise", "*repr*"] and isinstance(m, list) and m[:1] == ["raise"]:
+            continue
         if m != i:
             hi, oi = index[k]
             if hi in seen_h:
